@@ -84,12 +84,12 @@ unsigned MessageBase::extract_header(const f8String& from, char *len, char *mtyp
 		if (*tag != '8')
 			return 0;
 		s_offset += result;
-		if ((result = extract_element(dptr + s_offset, flen - s_offset, tag, len)))
+		if ((result = extract_element(dptr + s_offset, flen - s_offset, tag, len, MAX_MSGTYPE_FIELD_LEN, MAX_MSGTYPE_FIELD_LEN)))
 		{
 			if (*tag != '9')
 				return 0;
 			s_offset += result;
-			if ((result = extract_element(dptr + s_offset, flen - s_offset, tag, mtype)))
+			if ((result = extract_element(dptr + s_offset, flen - s_offset, tag, mtype, MAX_MSGTYPE_FIELD_LEN, MAX_MSGTYPE_FIELD_LEN)))
 			{
 				if (*tag != '3' || *(tag + 1) != '5')
 					return 0;
@@ -318,6 +318,11 @@ Message *Message::factory(const F8MetaCntx& ctx, const f8String& from, bool no_c
 	_codec_timings.start(sw_decode_time);
 #endif
 	const unsigned consumed(msg->decode(from, hlen, 7, permissive_mode)); // skip already decoded mandatory 8, 9, 35 and 10
+	if (permissive_mode && consumed != from.size() - 7)
+	{
+		delete msg;
+		throw InvalidMessage(from, FILE_LINE); // something that is not a tag=value field (or does not fit a field) is in the way
+	}
 	if (!permissive_mode && consumed != from.size() - 7)
 	{
 		// strict mode: decoding stopped at a field that is not legal where it appears; nothing may be silently dropped
